@@ -85,6 +85,21 @@ def error_path_scenarios():
         scn("err-wait-path", SM("A", A=dict(Wt(1, End=True), InputPath="$.nope"))),
         scn("err-succeed-path", SM("A", A={"Type": "Succeed", "InputPath": "$.nope"})),
         scn("err-unknown-state", SM("A", A=P(Next="Nowhere"))),
+        # the remaining error paths of the handlers: each `except` clause and each refusal of the task dispatcher
+        scn("err-task-params-intrinsic", SM("A", A=T("f", Parameters={"a.$": "States.Nope(1)"}, End=True))),
+        scn("err-task-resultpath", SM("A", A=T("f", ResultPath="$.a.b", End=True)), inputs=({"a": 5},)),
+        scn("err-task-outputpath", SM("A", A=T("f", OutputPath="$.nope", End=True))),
+        scn("err-wait-outputpath", SM("A", A=dict(Wt(1, End=True), OutputPath="$.nope"))),
+        scn("err-wait-secondspath", SM("A", A={"Type": "Wait", "SecondsPath": "$.nope", "End": True})),
+        scn("err-par-rsel", SM("P", P=S.Par([SM("A", A=P(End=True))], ResultSelector={"a.$": "$.nothere"}, End=True))),
+        scn("err-par-resultpath", SM("P", P=S.Par([SM("A", A=P(End=True))], ResultPath="$.a.b", End=True)), inputs=({"a": 5},)),
+        scn("err-map-isel", SM("M", M=S.Mp(SM("A", A=P(End=True)), ItemSelector={"a.$": "States.Nope(1)"}, End=True)), inputs=([1, 2],)),
+        scn("err-map-rsel", SM("M", M=S.Mp(SM("A", A=P(End=True)), ResultSelector={"a.$": "$.nothere"}, End=True)), inputs=([1],)),
+        scn("err-map-empty-resultpath", SM("M", M=S.Mp(SM("A", A=P(End=True)), ItemsPath="$.items", ResultPath="$.a.b", End=True)), inputs=({"a": 5, "items": []},)),
+        scn("err-task-badservice-states", SM("A", A={"Type": "Task", "Resource": "arn:aws:states:::states:bogus", "End": True})),
+        scn("err-task-badservice-sdk", SM("A", A={"Type": "Task", "Resource": "arn:aws:states:::aws-sdk:bogus", "End": True})),
+        scn("err-task-badservice-rpc", SM("A", A={"Type": "Task", "Resource": "arn:aws:states:::rpcmessage:bogus", "End": True})),
+        scn("err-task-badservice-other", SM("A", A={"Type": "Task", "Resource": "arn:aws:states:::lambda:invoke", "End": True})),
         # a transition, inside a branch, to a state name that two branches define (only reachable when the validator is off)
         scn("err-duplicate-name", SM("P", P=S.Par([SM("A1", A1=P(Next="X"), X=P(End=True)), SM("B1", B1=P(Next="X"), X=P(End=True))], End=True))),
         scn("err-unknown-type", SM("A", A={"Type": "Bogus", "End": True})),
